@@ -748,10 +748,12 @@ impl Expression {
                 match ps.peek::<0>() {
                     Some(d) if ('0'..='7').contains(&d) => {
                         // parse as OCT
-                        let mut num = 0i64;
+                        let mut num = Some(0i64);
+                        let mut float = 0f64;
                         loop {
                             let d = ps.next().unwrap() as i64 - '0' as i64;
-                            num = num * 8 + d;
+                            float = float * 8. + d as f64;
+                            num = num.and_then(|x| x.checked_mul(8)?.checked_add(d));
                             let Some(peek) = ps.peek::<0>() else { break };
                             if !is_ident_char(peek) {
                                 break;
@@ -763,15 +765,20 @@ impl Expression {
                                 return None;
                             }
                         }
-                        return Some(Box::new(Expression::LitInt {
-                            value: num,
-                            location: pos..ps.position(),
+                        let location = pos..ps.position();
+                        return Some(Box::new(match num {
+                            Some(value) => Expression::LitInt { value, location },
+                            None => Expression::LitFloat {
+                                value: float,
+                                location,
+                            },
                         }));
                     }
                     Some('x') => {
                         // parse as HEX
                         ps.next(); // 'x'
-                        let mut num = 0i64;
+                        let mut num = Some(0i64);
+                        let mut float = 0f64;
                         let peek = ps.peek::<0>()?;
                         if !('0'..='9').contains(&peek)
                             && !('a'..='f').contains(&peek)
@@ -803,7 +810,8 @@ impl Expression {
                                 'f' | 'F' => 15,
                                 _ => unreachable!(),
                             };
-                            num = num * 16 + d;
+                            float = float * 16. + d as f64;
+                            num = num.and_then(|x| x.checked_mul(16)?.checked_add(d));
                             let Some(peek) = ps.peek::<0>() else { break };
                             if !is_ident_char(peek) {
                                 break;
@@ -818,9 +826,13 @@ impl Expression {
                                 return None;
                             }
                         }
-                        return Some(Box::new(Expression::LitInt {
-                            value: num,
-                            location: pos..ps.position(),
+                        let location = pos..ps.position();
+                        return Some(Box::new(match num {
+                            Some(value) => Expression::LitInt { value, location },
+                            None => Expression::LitFloat {
+                                value: float,
+                                location,
+                            },
                         }));
                     }
                     Some('e') | Some('.') | Some('8') | Some('9') => {
@@ -842,7 +854,7 @@ impl Expression {
             }
 
             // parse as normal DEC
-            let mut int = Some(0);
+            let mut int = Some(0i64);
             loop {
                 let next = ps.next().unwrap();
                 if next == 'e' {
@@ -874,9 +886,10 @@ impl Expression {
                     int = None;
                 } else {
                     // '0'..='9'
-                    if let Some(x) = int.as_mut() {
+                    if let Some(x) = int {
+                        // on overflow, fall back to a float literal
                         let d = next as i64 - '0' as i64;
-                        *x = *x * 10 + d;
+                        int = x.checked_mul(10).and_then(|x| x.checked_add(d));
                     }
                 }
                 let Some(peek) = ps.peek::<0>() else { break };
